@@ -57,10 +57,10 @@ func resolveDo(c *Ctx, p *core.Program) *doRoles {
 			switch {
 			case core.ReachesCallee(cl, isClientMethod("packet"), 3):
 				r.Receiver = cl
-			case core.ReachesCallee(cl, isWriterFlush, 4):
-				r.Sender = cl
 			case core.ReachesCallee(cl, isClientMethod("Close"), 4):
 				r.Watch = cl
+			case core.ReachesCallee(cl, isWriterFlush, 4):
+				r.Sender = cl
 			}
 		case isErrgroupWait(f):
 			r.Wait = call
